@@ -8,6 +8,8 @@ INVARIANT Defaults
 INVARIANT Rejects
 INVARIANT Passthrough
 INVARIANT ShortCircuit
+INVARIANT CtorLaw
+INVARIANT Unorderable
 CHECK_DEADLOCK FALSE
 CONSTANTS
   Mutant = "opform_drops_default"
